@@ -49,6 +49,33 @@ def cases(tier, seed):
 
 
 PW = 'integrity pass'
+PW2_BYTES = b'raw \xff\xfe bytes \n'
+
+
+def near_misses(pw):
+    """passphrases that differ from pw but that some normalisation would identify with it (never pw itself)"""
+    import unicodedata
+    out = []
+    if isinstance(pw, bytes):
+        cands = [pw.strip(), pw.rstrip(b'\n'), pw.rstrip(b'\r\n'), pw + b'\n', pw + b'\r\n', pw.lower(), pw.upper(), pw[:8], pw + b'\x00', pw.rstrip(b'\x00'),
+                 pw.replace(b'\xff', b''), pw.decode('latin-1'), pw.decode('utf-8', 'ignore'), pw.decode('utf-8', 'replace')]
+    else:
+        cands = [pw + '\n', pw + '\r\n', pw + '\r', pw + '\t', pw + ' ', ' ' + pw, '\n' + pw, pw + '\x00', '\ufeff' + pw, pw + '\u00a0', pw + '\u200b',
+                 pw.strip(), pw.rstrip(), pw.lstrip(), pw.rstrip('\r\n'), pw.rstrip('\n'), pw.replace('  ', ' '), pw.replace('\t', ' '), pw.replace(' ', ''),
+                 pw.lower(), pw.upper(), pw.casefold(), pw.title(), pw.swapcase(),
+                 unicodedata.normalize('NFC', pw), unicodedata.normalize('NFD', pw), unicodedata.normalize('NFKC', pw), unicodedata.normalize('NFKD', pw),
+                 pw[:8], pw[:-1], pw[1:], pw * 2, pw.encode('utf-8').decode('latin-1'), pw.encode('utf-16-le'), pw.encode('latin-1', 'ignore'), pw.encode('ascii', 'ignore'),
+                 pw.encode('utf-8').rstrip(b'\n'), pw.encode('utf-8') + b'\n',
+                 pw.translate({ord('i'): 0x456, ord('a'): 0x430, ord('e'): 0x435})]      # Cyrillic look-alikes
+    seen = set()
+    same = pw.encode('utf-8') if isinstance(pw, str) else pw
+    for c in cands:
+        cb = c.encode('utf-8') if isinstance(c, str) else bytes(c)
+        if cb == same or (type(c), cb) in seen:
+            continue
+        seen.add((type(c), cb))
+        out.append(c)
+    return out
 
 
 def build(d, rng, content_tag=b''):
@@ -121,7 +148,7 @@ def attempt(ctx, pgpy, blob, secret, allowed, what, d, extra=None, counter=None)
         ctx.count('same_plaintext')
         return 'same'
     ctx.outcome('DIFFERENT-PLAINTEXT')
-    ctx.fail('tampered-message-decrypted-to-different-plaintext', dict({'base': d, 'mutation': what, 'returned': hx(got)[:120] if got is not None else repr(dec)[:100],
+    ctx.fail('wrong-secret-accepted' if counter == 'wrong_secret_attempts' else 'tampered-message-decrypted-to-different-plaintext', dict({'base': d, 'mutation': what, 'returned': hx(got)[:120] if got is not None else repr(dec)[:100],
                                                                         'message': hx(blob)[:600]}, **(extra or {})))
     return 'different'
 
@@ -259,6 +286,17 @@ def run_case(ctx, d):
                 import unicodedata
                 for pw in ('', ' ', PW + ' ', PW.upper(), PW[:-1], PW + 'x', 'İntegrity pass', unicodedata.normalize('NFD', 'intégrity pass'), PW.encode('utf-8') + b'\x00', 'x' * 500):
                     r = attempt(ctx, pgpy, blob, ('pass', pw), [], 'wrong-passphrase', d, {'passphrase': repr(pw)[:40]}, 'wrong_secret_attempts')
+                # near misses: whatever a helpful normalisation (strip, case fold, Unicode normal forms, newline handling, truncation) would map onto the right one
+                for pw in near_misses(PW):
+                    attempt(ctx, pgpy, blob, ('pass', pw), [], 'near-miss-passphrase', d, {'passphrase': repr(pw)[:40]}, 'wrong_secret_attempts')
+                # ... and the other way round: the real passphrase is the untidy one
+                from pgpy.constants import SymmetricKeyAlgorithm, CompressionAlgorithm
+                for real in (' Pa\u0301ss  phrase\t\r\n', 'trailing newline\n', '\ufb01ne \u212b', PW2_BYTES):
+                    m2 = pgpy.PGPMessage.new(b'near miss', compression=CompressionAlgorithm.Uncompressed)
+                    eblob = bytes(m2.encrypt(real, cipher=SymmetricKeyAlgorithm.AES128))
+                    for pw in near_misses(real):
+                        attempt(ctx, pgpy, eblob, ('pass', pw), [], 'near-miss-passphrase', d, {'real': repr(real)[:40], 'passphrase': repr(pw)[:40]}, 'wrong_secret_attempts')
+                    ok = attempt(ctx, pgpy, eblob, ('pass', real), [b'near miss'], 'right-untidy-passphrase', d, {'real': repr(real)[:40]})
             else:
                 for other in encwork.RECIPIENTS:
                     if other == d['rc']:
